@@ -156,7 +156,7 @@ func (*Writer).writeBase
     requires[sync_ok] iwOK(w)
     requires[layout_ok] w.f != nil && len(w.buff) == 16 && w.pos == fSize[w.f] && w.pos >= 0
     assigns fsDirty, fsContent, fData, fSize, Writer.pos, elems(w.buff)
-    ensures[sync_frame] forall p string :: p != fPath[w.f] ==> fsDirty[p] == old(fsDirty[p])
+    ensures[sync_frame] forall p string :: p != fPath[w.f] ==> fsDirty[p] == old(fsDirty[p]) && fsContent[p] == old(fsContent[p])
     // C13/C11: one item = 16 bytes appended at the end of the file, every field an 8-byte big-endian word
     ensures[layout_item]   err == nil ==> fSize[w.f] == old(fSize[w.f]) + 16 && w.pos == fSize[w.f] && w64(fData[w.f], old(w.pos) + 0) == u64(it.Offset) && w64(fData[w.f], old(w.pos) + 8) == u64(it.Position)
     ensures[layout_prefix] forall i :: 0 <= i && i < old(w.pos) ==> fData[w.f][i] == old(fData[w.f][i])
@@ -171,7 +171,7 @@ func (*Writer).writeTimes
     requires[sync_ok] iwOK(w)
     requires[layout_ok] w.f != nil && len(w.buff) == 24 && w.pos == fSize[w.f] && w.pos >= 0
     assigns fsDirty, fsContent, fData, fSize, Writer.pos, elems(w.buff)
-    ensures[sync_frame] forall p string :: p != fPath[w.f] ==> fsDirty[p] == old(fsDirty[p])
+    ensures[sync_frame] forall p string :: p != fPath[w.f] ==> fsDirty[p] == old(fsDirty[p]) && fsContent[p] == old(fsContent[p])
     // C13/C11: one item = 24 bytes appended at the end of the file, every field an 8-byte big-endian word
     ensures[layout_item]   err == nil ==> fSize[w.f] == old(fSize[w.f]) + 24 && w.pos == fSize[w.f] && w64(fData[w.f], old(w.pos) + 0) == u64(it.Offset) && w64(fData[w.f], old(w.pos) + 8) == u64(it.Position) && w64(fData[w.f], old(w.pos) + 16) == u64(it.Timestamp)
     ensures[layout_prefix] forall i :: 0 <= i && i < old(w.pos) ==> fData[w.f][i] == old(fData[w.f][i])
@@ -187,7 +187,7 @@ func (*Writer).writeKeys
     requires[sync_ok] iwOK(w)
     requires[layout_ok] w.f != nil && len(w.buff) == 24 && w.pos == fSize[w.f] && w.pos >= 0
     assigns fsDirty, fsContent, fData, fSize, Writer.pos, elems(w.buff)
-    ensures[sync_frame] forall p string :: p != fPath[w.f] ==> fsDirty[p] == old(fsDirty[p])
+    ensures[sync_frame] forall p string :: p != fPath[w.f] ==> fsDirty[p] == old(fsDirty[p]) && fsContent[p] == old(fsContent[p])
     // C13/C11: one item = 24 bytes appended at the end of the file, every field an 8-byte big-endian word
     ensures[layout_item]   err == nil ==> fSize[w.f] == old(fSize[w.f]) + 24 && w.pos == fSize[w.f] && w64(fData[w.f], old(w.pos) + 0) == u64(it.Offset) && w64(fData[w.f], old(w.pos) + 8) == u64(it.Position) && w64(fData[w.f], old(w.pos) + 16) == it.KeyHash
     ensures[layout_prefix] forall i :: 0 <= i && i < old(w.pos) ==> fData[w.f][i] == old(fData[w.f][i])
@@ -203,7 +203,7 @@ func (*Writer).writeFull
     requires[sync_ok] iwOK(w)
     requires[layout_ok] w.f != nil && len(w.buff) == 32 && w.pos == fSize[w.f] && w.pos >= 0
     assigns fsDirty, fsContent, fData, fSize, Writer.pos, elems(w.buff)
-    ensures[sync_frame] forall p string :: p != fPath[w.f] ==> fsDirty[p] == old(fsDirty[p])
+    ensures[sync_frame] forall p string :: p != fPath[w.f] ==> fsDirty[p] == old(fsDirty[p]) && fsContent[p] == old(fsContent[p])
     // C13/C11: one item = 32 bytes appended at the end of the file, every field an 8-byte big-endian word
     ensures[layout_item]   err == nil ==> fSize[w.f] == old(fSize[w.f]) + 32 && w.pos == fSize[w.f] && w64(fData[w.f], old(w.pos) + 0) == u64(it.Offset) && w64(fData[w.f], old(w.pos) + 8) == u64(it.Position) && w64(fData[w.f], old(w.pos) + 16) == u64(it.Timestamp) && w64(fData[w.f], old(w.pos) + 24) == it.KeyHash
     ensures[layout_prefix] forall i :: 0 <= i && i < old(w.pos) ==> fData[w.f][i] == old(fData[w.f][i])
@@ -288,22 +288,22 @@ func Write
     assert[layout_end]   w.pos == fSize[w.f] at call (*Writer).SyncAndClose 1
     ensures[sync_clean] retErr == nil ==> !fsDirty[path]
     ensures[sync_handles] forall g *os.File :: !fresh(g) ==> fPath[g] == old(fPath[g])
-    ensures[sync_frame] forall p string :: p != path ==> fsDirty[p] == old(fsDirty[p]) && fsExists[p] == old(fsExists[p])
+    ensures[sync_frame] forall p string :: p != path ==> fsDirty[p] == old(fsDirty[p]) && fsExists[p] == old(fsExists[p]) && fsContent[p] == old(fsContent[p])
     loop 1
       invariant[layout_state] opts.Times && opts.Keys && w != nil && w.f != nil && len(w.buff) == 32 && w.pos == fSize[w.f] && w.pos >= (rangeindex + 1) * 32 && -1 <= rangeindex && rangeindex < len(index)
       invariant[layout_done]  forall k :: 0 <= k && k <= rangeindex ==> itemFullAt(fData[w.f], w.pos - (rangeindex + 1 - k) * 32, index[k])
-      invariant[sync] iwOK(w) && fPath[w.f] == path && (forall p string :: p != path ==> fsDirty[p] == old(fsDirty[p]) && fsExists[p] == old(fsExists[p])) && (forall g *os.File :: !fresh(g) ==> fPath[g] == old(fPath[g]))
+      invariant[sync] iwOK(w) && fPath[w.f] == path && (forall p string :: p != path ==> fsDirty[p] == old(fsDirty[p]) && fsExists[p] == old(fsExists[p]) && fsContent[p] == old(fsContent[p])) && (forall g *os.File :: !fresh(g) ==> fPath[g] == old(fPath[g]))
     loop 2
       invariant[layout_state] opts.Times && !opts.Keys && w != nil && w.f != nil && len(w.buff) == 24 && w.pos == fSize[w.f] && w.pos >= (rangeindex + 1) * 24 && -1 <= rangeindex && rangeindex < len(index)
       invariant[layout_done]  forall k :: 0 <= k && k <= rangeindex ==> itemTimesAt(fData[w.f], w.pos - (rangeindex + 1 - k) * 24, index[k])
-      invariant[sync] iwOK(w) && fPath[w.f] == path && (forall p string :: p != path ==> fsDirty[p] == old(fsDirty[p]) && fsExists[p] == old(fsExists[p])) && (forall g *os.File :: !fresh(g) ==> fPath[g] == old(fPath[g]))
+      invariant[sync] iwOK(w) && fPath[w.f] == path && (forall p string :: p != path ==> fsDirty[p] == old(fsDirty[p]) && fsExists[p] == old(fsExists[p]) && fsContent[p] == old(fsContent[p])) && (forall g *os.File :: !fresh(g) ==> fPath[g] == old(fPath[g]))
     loop 3
       invariant[layout_state] !opts.Times && opts.Keys && w != nil && w.f != nil && len(w.buff) == 24 && w.pos == fSize[w.f] && w.pos >= (rangeindex + 1) * 24 && -1 <= rangeindex && rangeindex < len(index)
       invariant[layout_done]  forall k :: 0 <= k && k <= rangeindex ==> itemKeysAt(fData[w.f], w.pos - (rangeindex + 1 - k) * 24, index[k])
-      invariant[sync] iwOK(w) && fPath[w.f] == path && (forall p string :: p != path ==> fsDirty[p] == old(fsDirty[p]) && fsExists[p] == old(fsExists[p])) && (forall g *os.File :: !fresh(g) ==> fPath[g] == old(fPath[g]))
+      invariant[sync] iwOK(w) && fPath[w.f] == path && (forall p string :: p != path ==> fsDirty[p] == old(fsDirty[p]) && fsExists[p] == old(fsExists[p]) && fsContent[p] == old(fsContent[p])) && (forall g *os.File :: !fresh(g) ==> fPath[g] == old(fPath[g]))
     loop 4
       invariant[layout_state] !opts.Times && !opts.Keys && w != nil && w.f != nil && len(w.buff) == 16 && w.pos == fSize[w.f] && w.pos >= (rangeindex + 1) * 16 && -1 <= rangeindex && rangeindex < len(index)
       invariant[layout_done]  forall k :: 0 <= k && k <= rangeindex ==> itemBaseAt(fData[w.f], w.pos - (rangeindex + 1 - k) * 16, index[k])
-      invariant[sync] iwOK(w) && fPath[w.f] == path && (forall p string :: p != path ==> fsDirty[p] == old(fsDirty[p]) && fsExists[p] == old(fsExists[p])) && (forall g *os.File :: !fresh(g) ==> fPath[g] == old(fPath[g]))
+      invariant[sync] iwOK(w) && fPath[w.f] == path && (forall p string :: p != path ==> fsDirty[p] == old(fsDirty[p]) && fsExists[p] == old(fsExists[p]) && fsContent[p] == old(fsContent[p])) && (forall g *os.File :: !fresh(g) ==> fPath[g] == old(fPath[g]))
 
 @*/
